@@ -401,17 +401,24 @@ def seed_block(b, rng):
     kinds = ["list", "array", "array2d", "list", "array", "none", "scalar", "empty", "short"]
     rng.shuffle(kinds)
     assigned = {}
+
+    def val():
+        # assumption review: boundary data were drawn from 1..9 only; negative values, exact zeros and a value shared by two
+        # entries (temperatures differences, zero fluxes) are boundary-parameter vectors too
+        r = rng.random()
+        return 0.0 if r < 0.1 else (2.5 if r < 0.2 else rng.uniform(-9.0, 9.0))
+
     for name, kind in zip(names, kinds * 3):
         if kind == "list":
-            v = [rng.uniform(1.0, 9.0) for _ in range(6)]
+            v = [val() for _ in range(6)]
         elif kind == "array":
-            v = np.array([rng.uniform(1.0, 9.0) for _ in range(6)])
+            v = np.array([val() for _ in range(6)])
         elif kind == "array2d":
-            v = np.array([[rng.uniform(1.0, 9.0) for _ in range(3)] for _ in range(6)])
+            v = np.array([[val() for _ in range(3)] for _ in range(6)])
         elif kind == "none":
             v = None
         elif kind == "scalar":
-            v = rng.uniform(1.0, 9.0)
+            v = val()
         elif kind == "empty":
             v = []
         else:
